@@ -430,6 +430,14 @@ func (g *SymbolGraph) FindByKind(kinds ...common.SymKind) []*SymbolNode {
 	}
 
 	results = verifhook.Permute("nodes", results, func(n *SymbolNode) string { return n.Id.BaseId() })
+	// Nodes live in a map; callers derive output order (controllers, models, import serials) from this slice
+	slices.SortFunc(results, func(a, b *SymbolNode) int {
+		return cmp.Or(
+			cmp.Compare(a.Id.Name, b.Id.Name),
+			cmp.Compare(a.Id.FilePath, b.Id.FilePath),
+			cmp.Compare(a.Id.Position, b.Id.Position),
+		)
+	})
 	return results
 }
 
